@@ -12,6 +12,34 @@ def c01_reinit(inp, obligation):
 
     def st(c):
         return (set(c.old_index_set), set(c.active_index_set), c.lmax_adaptive, c.lmin, c.lmax)
+    if inp.get("refusal"):
+        # the refusal contract: requests with an invalid level range (the model's one first) must raise and leave a used object exactly as it was
+        lo0 = max(0, min(int(inp.get("lmin_old", 1) or 0), 3))
+        hi0 = max(lo0, min(int(inp.get("lmax_old", lo0 + 1) or lo0), lo0 + 3))
+        reqs = [(int(inp.get("lmax", 0) or 0), int(inp.get("lmin", 0) or 0))] + [(0, 4), (1, -1), (-1, 0), (-2, -1), (lo0 + 5, -1), (0, lo0 + 1)]
+        for (rmax, rmin) in reqs:
+            if rmax >= rmin >= 0:
+                continue
+            rmax, rmin = max(-3, min(rmax, 8)), max(-3, min(rmin, 8))
+            if rmax >= rmin >= 0:
+                continue
+            for hist in (0, 2):
+                c = CombiScheme(d)
+                c.init_adaptive_combi_scheme(hi0, lo0)
+                for _ in range(hist):
+                    if c.active_index_set:
+                        c.update_adaptive_combi(list(sorted(c.active_index_set)[0]))
+                before = st(c)
+                try:
+                    c.init_adaptive_combi_scheme(rmax, rmin)
+                    bad.append("init_adaptive_combi_scheme(lmax=%d, lmin=%d) was accepted although the range is invalid" % (rmax, rmin))
+                except AssertionError:
+                    if st(c) != before:
+                        bad.append("refused init_adaptive_combi_scheme(lmax=%d, lmin=%d) on a scheme (d=%d, lmax=%d, lmin=%d, %d updates) changed its state from %s to %s"
+                                   % (rmax, rmin, d, hi0, lo0, hist, before[2:], st(c)[2:]))
+        if bad:
+            return True, {"dim": d, "lmax_old": hi0, "lmin_old": lo0, "violations": bad[:3]}
+        return False, {"dim": d, "note": "refused requests left the object untouched natively"}
     fresh = CombiScheme(d)
     fresh.init_adaptive_combi_scheme(lmax, lmin)
     # histories of the object before the (re-)initialisation under test
